@@ -386,6 +386,37 @@ func TestEnumWKTSentences(t *testing.T) {
 	stats.Subspace(fmt.Sprintf("every WKT sentence of <= %d tokens over %d tokens x 8 parsers", maxTok, len(wktTokens)), e.size, true)
 }
 
+// TestEnumWKTVocab (round M3): every sequence of <= 3 tokens over the vocabulary dictionary and the
+// 16-token alphabet that contains at least one vocabulary token, as a prefix of a valid text, of an
+// empty text, and (1 or 2 tokens) as a suffix of the valid text.
+func TestEnumWKTVocab(t *testing.T) {
+	assumptions()
+	defer inFlightDone()
+	e := &enumRun{t: t, name: "TestEnumWKTVocab", family: "wkt", measureEach: 1}
+	all := append(append([]string(nil), wktVocab...), wktTokens...)
+	nv := len(wktVocab)
+	tails := []string{"POINT(1 2)", ""}
+	var rec func(prefix string, hasVocab bool, left int)
+	rec = func(prefix string, hasVocab bool, left int) {
+		if hasVocab {
+			for _, tail := range tails {
+				e.do([]byte(prefix+tail), "vocab-prefix")
+			}
+			if left >= 1 {
+				e.do([]byte("LINESTRING(1 2,3 4)"+prefix), "vocab-suffix")
+			}
+		}
+		if left == 0 {
+			return
+		}
+		for i, tok := range all {
+			rec(prefix+tok, hasVocab || i < nv, left-1)
+		}
+	}
+	rec("", false, 3)
+	stats.Subspace(fmt.Sprintf("WKT vocabulary: every sequence of <= 3 tokens over %d vocabulary tokens + the 16-token alphabet with >= 1 vocabulary token, as prefix of POINT(1 2) and of the empty text (<= 2 tokens also as suffix of a line string) x 8 parsers", nv), e.size, true)
+}
+
 // ---------------------------------------------------------------- GeoJSON grammar
 
 var (
@@ -551,6 +582,21 @@ func witnesses() []witness {
 		{"geojson", []byte(" null"), "fixed:geojson-feature-null-whitespace"},
 		{"geojson", []byte("null "), "fixed:geojson-feature-null-whitespace"},
 		{"geojson", []byte("\t\r\n null \n"), "fixed:geojson-feature-null-whitespace"},
+		// seeded change C05m / round M3: foreign vocabulary
+		{"wkt", []byte("SRID=4326;POINT(1 2)"), "EWKT prefix"},
+		{"wkt", []byte("SRID="), "EWKT prefix without ;"},
+		{"wkt", []byte("srid=4326 POINT(1 2)"), "EWKT prefix, lower case, no ;"},
+		{"wkt", []byte("  SRID=POINT(1 2)"), "EWKT prefix after blanks, no ;"},
+		{"wkt", []byte("SRID=;"), "EWKT prefix, empty id, nothing else"},
+		{"wkt", []byte("POINT Z(1 2 3)"), "Z suffix"},
+		{"wkt", []byte("POINTZM(1 2 3 4)"), "ZM suffix"},
+		{"wkt", []byte("POINT(nan inf)"), "non-finite spellings"},
+		{"wkt", []byte("BOX(1 2,3 4)"), "BOX"},
+		{"wkt", []byte("GEOMETRYCOLLECTION(SRID=4326;POINT(1 2))"), "EWKT prefix inside a collection"},
+		{"wkb", []byte("SRID=4326;0101000000000000000000f03f0000000000000040"), "EWKT-style SRID before hex WKB"},
+		{"wkb", []byte("0x0101000000000000000000f03f0000000000000040"), "0x before hex WKB"},
+		{"geojson", []byte(`{"type":"Point","coordinates":[1,2],"crs":{"type":"name","properties":{"name":"EPSG:4326"}},"bbox":[1,2,1,2]}`), "crs and bbox members"},
+		{"geojson", []byte(`{"type":"Feature","_id":{"$oid":"5f2b6d1e9c3a4b0012345678"},"id":{"$oid":"5f2b6d1e9c3a4b0012345678"},"geometry":null,"properties":{"$oid":1}}`), "$oid / _id"},
 		// WKT
 		{"wkt", []byte("GEOMETRYCOLLECTION(POINT(1e-07 2))"), "fixed:wkt-collection-split-on-letters"},
 		{"wkt", []byte("GEOMETRYCOLLECTION(GEOMETRYCOLLECTION(POINT(1 2)), POINT EMPTY)"), "nested collection"},
